@@ -236,6 +236,12 @@ func (r *srvRun) handler(ctx context.Context, req *jrpc2.Request) (any, error) {
 	switch {
 	case outcome == "err":
 		return nil, fmt.Errorf("failed %s", tag)
+	case outcome == "rawnl": // a pre-encoded result that is valid JSON but not compact
+		return json.RawMessage("{\n\t\"t\": \"" + tag + "\"\r\n}"), nil
+	case outcome == "rawbad": // a pre-encoded result that is not JSON at all
+		return json.RawMessage(`{"t":`), nil
+	case outcome == "errdata": // an error value whose data is not JSON
+		return nil, &jrpc2.Error{Code: 7, Message: "coded " + tag, Data: json.RawMessage(`{"a":`)}
 	case strings.HasPrefix(outcome, "errcode:"):
 		var c int
 		fmt.Sscan(outcome[8:], &c)
@@ -408,6 +414,7 @@ func runServerScenario(t *testing.T, sc *srvScenario, pickFn func(n int) int, sk
 				return nil
 			}
 		}
+		r.sch.onSendFail = func(b []byte) { r.logf("outfail %s", b) }
 		r.sch.midSend = r.sendPark
 		r.sch.midClose = func() {
 			if srv := r.srv; srv != nil {
@@ -458,7 +465,7 @@ func runServerScenario(t *testing.T, sc *srvScenario, pickFn func(n int) int, sk
 			nOps := 0
 			if nextOp < len(sc.Ops) {
 				nOps = 1
-				if op := sc.Ops[nextOp]; op.Kind == "cbreply" || op.Kind == "cbreplyerr" {
+				if op := sc.Ops[nextOp]; op.Kind == "cbreply" || op.Kind == "cbreplyerr" || op.Kind == "cbreplybad" {
 					r.hmu.Lock()
 					_, pushed := r.cbIDs[op.Arg]
 					r.hmu.Unlock()
@@ -544,13 +551,16 @@ func runServerScenario(t *testing.T, sc *srvScenario, pickFn func(n int) int, sk
 					r.nextSend++
 					r.sendTags = append(r.sendTags, memberTags(op.Arg))
 					r.cli.Send([]byte(op.Arg))
-				case "cbreply", "cbreplyerr":
+				case "cbreply", "cbreplyerr", "cbreplybad":
 					r.hmu.Lock()
 					id := r.cbIDs[op.Arg]
 					r.hmu.Unlock()
 					msg := fmt.Sprintf(`{"jsonrpc":"2.0","id":%s,"result":"res-%s"}`, id, op.Arg)
 					if op.Kind == "cbreplyerr" {
 						msg = fmt.Sprintf(`{"jsonrpc":"2.0","id":%s,"error":{"code":77,"message":"cberr-%s"}}`, id, op.Arg)
+					}
+					if op.Kind == "cbreplybad" { // a failure report whose error member is not an error object
+						msg = fmt.Sprintf(`{"jsonrpc":"2.0","id":%s,"error":"cbbad-%s"}`, id, op.Arg)
 					}
 					r.logf("send %d %s", r.nextSend, msg)
 					r.nextSend++
